@@ -117,6 +117,7 @@ func NewRenderContext(env *Environment, context map[string]interface{}, engine *
 	ctx.parent = nil
 	ctx.inParentCall = false
 	ctx.sandboxed = false
+	ctx.lastLoadedTemplate = nil
 
 	// Copy the context values directly
 	if context != nil {
@@ -295,6 +296,19 @@ func (ctx *RenderContext) GetVariableOrNil(name string) interface{} {
 // SetVariable sets a variable in the context
 func (ctx *RenderContext) SetVariable(name string, value interface{}) {
 	ctx.context[name] = value
+}
+
+// currentTemplateName returns the name of the template whose code is being
+// rendered in this context. Relative template names ("./x", "../x") resolve
+// against it; it belongs to the render context, so concurrent renders on one
+// engine do not see each other's.
+func (ctx *RenderContext) currentTemplateName() string {
+	for c := ctx; c != nil; c = c.parent {
+		if c.lastLoadedTemplate != nil && c.lastLoadedTemplate.name != "" {
+			return c.lastLoadedTemplate.name
+		}
+	}
+	return ""
 }
 
 // GetEnvironment returns the environment
